@@ -54,8 +54,12 @@ fn len_class(len: usize) -> String {
         "empty"
     } else if len < 64 {
         "sub-block"
-    } else if (len as u64) < (1u64 << 29) {
+    } else if len < (1 << 13) {
         "multi-block"
+    } else if len < (1 << 21) {
+        "bitlen>=2^16"
+    } else if (len as u64) < (1u64 << 29) {
+        "bitlen>=2^24"
     } else {
         "bitlen>=2^32"
     };
@@ -110,6 +114,9 @@ fn eval(ctx: &Ctx, c: &Case) {
 }
 
 pub fn replay(ctx: &Arc<Ctx>, v: &Value) {
+    if crate::cold::replay(ctx, v) {
+        return;
+    }
     let c: Case = serde_json::from_value(v.clone()).expect("C01 case");
     eval(ctx, &c);
 }
@@ -135,7 +142,7 @@ pub fn run(ctx: &Arc<Ctx>) {
         Err(e) => ctx.machinery_error(format!("missing corpus/sm3.json: {}", e)),
     }
     let lmax = ctx.tier.pick(1100usize, 4096);
-    ctx.set_rule("every length 0..=Lmax x 5 content classes; every single-bit-set message of 55/56/63/64/192 bytes; k*64+{-9,-8,-1,0,1} for k=1..=40; one message of 2^29+3 bytes; messages passed as slices at byte offsets 1..7 of an aligned buffer; every value of the last byte at 8 lengths; all call sequences of length <=3 over 6 messages (purity). A case is distinct by (kind, length, content/bit). Oracle: independent streaming SM3.");
+    ctx.set_rule("every length 0..=Lmax x 5 content classes; every single-bit-set message of 55/56/63/64/192 bytes; k*64+{-9,-8,-1,0,1} for k=1..=40; 2^k+{-1,0,1} bytes for k=13..=22 (thorough 26) and lengths whose bit length has distinct non-zero bytes, up to one message of 0x20406081 bytes (bit length 0x0102030408); messages passed as slices at byte offsets 1..7 of an aligned buffer; every value of the last byte at 8 lengths; all call sequences of length <=3 over 6 messages (purity). A case is distinct by (kind, length, content/bit). Oracle: independent streaming SM3.");
     ctx.note_bound(format!("Lmax={}", lmax));
     let mut cases: Vec<Case> = Vec::new();
     for len in 0..=lmax {
@@ -174,6 +181,21 @@ pub fn run(ctx: &Arc<Ctx>) {
     ctx.sample(serde_json::to_value(&cases[cases.len() - 1]).unwrap());
     run_cases(ctx, &cases, 64, eval);
 
+    // every byte of the 64-bit length field that a message in memory can reach: powers of two and their neighbours,
+    // and lengths whose bit length has pairwise distinct non-zero bytes (a swapped or dropped byte shows)
+    let kmax = ctx.tier.pick(22usize, 26);
+    let mut long: Vec<Case> = Vec::new();
+    for k in 13..=kmax {
+        for d in [-1i64, 0, 1] {
+            long.push(Case::Class { class: "mod251".into(), len: ((1i64 << k) + d) as usize });
+        }
+    }
+    for bitlen in [0x0302_08usize, 0x0403_0208, 0x0102_0408, 0x0180_4020] {
+        long.push(Case::Class { class: "seed".into(), len: bitlen / 8 });
+    }
+    ctx.cov("long_lengths", json!(long.len()));
+    run_cases(ctx, &long, 4, eval);
+
     // structural coverage: both padding branches, block counts
     let mut blocks = std::collections::BTreeSet::new();
     for len in 0..=lmax {
@@ -183,7 +205,8 @@ pub fn run(ctx: &Arc<Ctx>) {
     ctx.cov("padding_branches", json!(["len%64<56", "len%64>=56"]));
 
     // bit length >= 2^32
-    let big = (1usize << 29) + 3;
+    // bit length 0x01_02_03_04_08: the five low bytes of the length field are distinct and non-zero
+    let big = 0x0102_0304_08usize / 8;
     let c = Case::Class { class: "mod251".into(), len: big };
     eval(ctx, &c);
     ctx.cov("bitlen_ge_2^32_bytes", json!(big));
@@ -212,4 +235,5 @@ pub fn run(ctx: &Arc<Ctx>) {
     if st.unique_states != expect {
         ctx.machinery_error(format!("purity model visited {} states, expected {}", st.unique_states, expect));
     }
+    crate::cold::check(ctx, "C01");
 }
